@@ -151,17 +151,28 @@ func (d *Disk) PutChangeSet(puts map[string][]byte, stor map[string][]byte) erro
 		return err
 	}
 	b := Batch{Kind: "put", KV: make(map[string][]byte, len(puts)+len(stor))}
+	// deep copies: a real disk keeps the bytes as they were at write time, whatever
+	// the caller does with its slices afterwards
 	for k, v := range puts {
-		b.KV[k] = v
+		b.KV[k] = cloneVal(v)
 	}
 	for k, v := range stor {
-		b.KV[k] = v
+		b.KV[k] = cloneVal(v)
 	}
 	d.mu.Lock()
 	d.Puts++
 	d.log = append(d.log, b)
 	d.mu.Unlock()
 	return nil
+}
+
+func cloneVal(v []byte) []byte {
+	if v == nil {
+		return nil
+	}
+	c := make([]byte, len(v))
+	copy(c, v)
+	return c
 }
 
 // SeekGC implements storage.Store: the deletions of one pass are one atomic batch.
@@ -243,9 +254,9 @@ func (d *Disk) Image(k int, kind int, dir string) (*Disk, error) {
 		stor := map[string][]byte{}
 		for k, v := range b.KV {
 			if len(k) > 0 && (k[0] == byte(storage.STStorage) || k[0] == byte(storage.STTempStorage)) {
-				stor[k] = v
+				stor[k] = cloneVal(v)
 			} else {
-				puts[k] = v
+				puts[k] = cloneVal(v)
 			}
 		}
 		if err := n.inner.PutChangeSet(puts, stor); err != nil {
